@@ -803,7 +803,7 @@ def run(c):
         arrp = arrp + triples_array(PF, pf_ok, SplitMix(8102), ("integ", "safe", "calls"), arrp) + triples_array(PF, pf_ok, SplitMix(8103), ("calls", "evA", "evB"), arrp)
         todo_cases = arrp
     else:
-        todo_cases = [cs for i_, cs in enumerate(arrp) if i_ % 4 == c.seed % 4]        # every pair within four consecutive seeds
+        todo_cases = arrp        # the whole array with every seed (a seed slice hid pairs from three runs out of four)
     plog = PairLog(PF, pvalid, pexcl)
     pstep = 200 if c.thorough else 70
     for pi, f in enumerate(todo_cases):
@@ -886,6 +886,10 @@ def run(c):
         bP, bL, bR, bE = thresholds(cf)
         if cf["integrator"] == "bs" and f["fam"] == 3:
             bE = 1e-5
+        if cf["integrator"] == "ias15" and f["fam"] == 3:
+            # close pair inside the mutual Hill radius at t=0 with dt0 = P/30: the first steps are not converged to 1e-12
+            # (clean tree: 3e-12 plain, 5.2e-11 with massless test particles in the step-size control; independent of adaptive_mode, copy, variations)
+            bE = max(bE, 1e-9)
         for nm_, v_ in (("dE", wE), ("dP", wP), ("dL", wL), ("dCOM", wR)):
             worst["pairwise:%s:%s" % (f["integ"], nm_)] = max(worst.get("pairwise:%s:%s" % (f["integ"], nm_), 0.0), v_)
         rep = dict(factors=f, cfg=cf, m0=m0, bodies=bodies, G=G, boost=boost, dt=dtq, dE=wE, dP=wP, dL=wL, dCOM=wR)
@@ -902,8 +906,8 @@ def run(c):
     prep["factors"] = {k_: len(v_) for k_, v_ in PF.items()}
     prep["array_size"] = len(arrp)
     c.cov["pairs"] = prep
-    if c.thorough and prep["covered"] < prep["total"]:
-        c.broken.append("coverage: %d of %d admissible factor pairs were not evaluated in the thorough tier, e.g. %s" % (prep["total"] - prep["covered"], prep["total"], prep["missing"][:3]))
+    if prep["covered"] < prep["total"]:
+        c.broken.append("coverage: %d of %d admissible factor pairs were not evaluated, e.g. %s" % (prep["total"] - prep["covered"], prep["total"], prep["missing"][:3]))
 
     # ======================================================================= search: integrator switches on ONE simulation
     # every ordered pair of integrators, a few steps each, with and without reset_integrator(); invariants measured from the
@@ -1236,6 +1240,175 @@ def run(c):
     for nm_ in PERI.values():
         if peri_hits.get(nm_, 0) == 0:
             c.broken.append("coverage: no pericentre-flagged TRACE step occurred with peri_mode=%s (the pericentre code paths were not exercised)" % nm_)
+
+    # ======================================================================= search: TRACE, an event IMMEDIATELY before a step of each kind
+    # ri_trace.com_pos survives between steps and is not stored in archives: the step right after an event (restore, new
+    # simulation, user shift, move_to_com, added particle ...) starts with a stale value.  Step kinds are found by a scouting
+    # run (additional_forces is only called in the interaction sub-steps: 2 calls per attempt), then every event is applied
+    # right before a step of every kind; oracle: M, P unchanged and COM moved by dt*P/M over that ONE step; tie: the stored
+    # com_pos/com_vel after the step = the model's part2Com (bitwise) whenever the last attempt ran the interaction/jump/Kepler sequence.
+    TK = {"kind": ["plain", "encounter", "rejected: new planet encounter", "rejected: pericentre flag"],
+          "event": ["none", "new simulation (first step)", "copy", "file", "pickle", "shift+boost all particles", "move_to_com", "add particle", "mass edit", "synchronize"],
+          "frame": ["com", "off-com"],
+          "peri": ["PARTIAL_BS", "FULL_BS", "FULL_IAS15"]}
+    from c02_pairs import valid_pairs
+    tkv, tkx = valid_pairs(TK, lambda f_: True, SplitMix(8111))
+    tklog = PairLog(TK, tkv, tkx)
+    lines2, expect2, meta2 = [], [], []
+    SHIFT = (3.0, -2.0, 1.0, 0.3, 0.2, -0.1)
+
+    def tk_build(sysd, frame, pm):
+        sim = rebound.Simulation()
+        sim.add(m=1.0)
+        for b_ in sysd["bodies"]:
+            sim.add(**b_)
+        sim.move_to_com()
+        if frame == "off-com":
+            for p_ in sim.particles:
+                p_.x += SHIFT[0]; p_.y += SHIFT[1]; p_.z += SHIFT[2]; p_.vx += SHIFT[3]; p_.vy += SHIFT[4]; p_.vz += SHIFT[5]
+        sim.integrator = "trace"
+        sim.dt = sysd["dt"]
+        sim.ri_trace.peri_mode = pm
+        sim.ri_trace.peri_crit_eta = sysd["eta"]
+        return sim
+
+    def tk_step(sim):
+        """one step with the call counter installed; returns (kind, last attempt ran the WH sequence)"""
+        cnt = [0]
+
+        def af(simp, _c=cnt):
+            _c[0] += 1
+        sim.additional_forces = af
+        sim.steps(1)
+        ni, cc, en = cnt[0], int(sim.ri_trace._current_C), int(sim.ri_trace._encounter_N)
+        full = bool(cc) and int(sim.ri_trace._peri_mode) in (1, 2)
+        rej = ni == 4 or (ni == 2 and full)
+        if ni not in (0, 2, 4):
+            return "unclassified (%d force calls)" % ni, False, rej
+        kind = ("rejected: pericentre flag" if cc else "rejected: new planet encounter") if rej else ("encounter" if (cc or en > 1) else "plain")
+        return kind, not full, rej
+
+    def tk_event(sim, ev, rng):
+        if ev == "copy":
+            sim = sim.copy()
+        elif ev == "pickle":
+            sim = pickle.loads(pickle.dumps(sim))
+        elif ev == "file":
+            fn_ = os.path.join(tempfile.gettempdir(), "c04k_%d.bin" % os.getpid())
+            sim.save_to_file(fn_, delete_file=True)
+            sim = rebound.Simulation(fn_)
+            os.remove(fn_)
+        elif ev == "new simulation (first step)":
+            s2 = rebound.Simulation()
+            for p_ in raw(sim):
+                s2.add(m=p_[0], x=p_[1], y=p_[2], z=p_[3], vx=p_[4], vy=p_[5], vz=p_[6])
+            s2.integrator = "trace"; s2.dt = sim.dt; s2.t = sim.t
+            s2.ri_trace.peri_mode = int(sim.ri_trace._peri_mode); s2.ri_trace.peri_crit_eta = sim.ri_trace.peri_crit_eta
+            sim = s2
+        elif ev == "shift+boost all particles":
+            dx_ = [rng.uniform(-2, 2) for _ in range(3)] + [rng.uniform(-0.2, 0.2) for _ in range(3)]
+            for p_ in sim.particles:
+                p_.x += dx_[0]; p_.y += dx_[1]; p_.z += dx_[2]; p_.vx += dx_[3]; p_.vy += dx_[4]; p_.vz += dx_[5]
+        elif ev == "move_to_com":
+            sim.move_to_com()
+        elif ev == "add particle":
+            sim.add(m=1e-7, a=9.0 + rng.uniform(0, 1), e=0.05, f=rng.uniform(0, 6.28), primary=sim.particles[0])
+        elif ev == "mass edit":
+            sim.particles[0].m *= 1.0 + 1e-3 * rng.uniform(0.5, 1.5)
+        elif ev == "synchronize":
+            sim.synchronize()
+        return sim
+
+    tk_systems = [
+        dict(name="close planets at t=0", bodies=[dict(m=1e-4, a=1.0, e=0.0, f=0.0), dict(m=1e-4, a=1.3, e=0.3, omega=0.0, f=-0.05, inc=0.05)], dt=0.05, eta=1.0),
+        dict(name="planets approaching", bodies=[dict(m=1e-4, a=1.0, e=0.0, f=0.0), dict(m=1e-4, a=1.3, e=0.3, omega=0.0, f=-0.2, inc=0.05)], dt=0.05, eta=1.0),
+        dict(name="pericentre approach", bodies=[dict(m=1e-3, a=1.0, e=0.9, inc=0.1, omega=0.3, f=3.8), dict(m=5e-4, a=3.0, e=0.1, inc=0.05, Omega=1.0, f=1.0)], dt=0.04, eta=0.3),
+        dict(name="inside pericentre zone at t=0", bodies=[dict(m=1e-3, a=1.0, e=0.9, inc=0.1, omega=0.3, f=3.8), dict(m=5e-4, a=3.0, e=0.1, inc=0.05, Omega=1.0, f=1.0)], dt=0.02, eta=0.1),
+    ]
+    for extra_ in range(2 * T - 2 if c.thorough else 0):
+        rng = c.rng.fork()
+        if extra_ % 2 == 0:
+            tk_systems.append(dict(name="random planets", bodies=[dict(m=10 ** -rng.uniform(3.5, 4.5), a=1.0, e=0.0, f=0.0),
+                                   dict(m=10 ** -rng.uniform(3.5, 4.5), a=rng.uniform(1.25, 1.35), e=0.3, omega=0.0, f=-rng.uniform(0.03, 0.3), inc=0.05)], dt=0.05, eta=1.0))
+        else:
+            tk_systems.append(dict(name="random pericentre", bodies=[dict(m=10 ** -rng.uniform(3, 4), a=1.0, e=rng.uniform(0.85, 0.92), inc=0.1, omega=0.3, f=rng.uniform(3.7, 4.0)),
+                                   dict(m=5e-4, a=3.0, e=0.1, inc=0.05, Omega=1.0, f=1.0)], dt=rng.choice([0.02, 0.04]), eta=rng.choice([0.1, 0.3, 0.6])))
+    bPk, _bL, bRk, _bE = thresholds(dict(integrator="trace"))
+    tk_hist = {}
+    KSC = 14
+    for si_, sysd in enumerate(tk_systems):
+        for fi_, frame in enumerate(TK["frame"]):
+            for pm in (0, 1, 2):
+                rng = c.rng.fork()
+                try:
+                    kinds = []
+                    simS = tk_build(sysd, frame, pm)
+                    for k_ in range(KSC):
+                        kinds.append(tk_step(simS)[0])
+                    chosen = []
+                    for kd in TK["kind"]:
+                        idx = [k_ for k_, v_ in enumerate(kinds) if v_ == kd]
+                        chosen += idx[:1] if not kd.startswith("rejected") else idx[:2]
+                    for k_ in sorted(set(chosen)):
+                        for ev in TK["event"]:
+                            sim = tk_build(sysd, frame, pm)
+                            for _s in range(k_):
+                                tk_step(sim)
+                            sim = tk_event(sim, ev, rng)
+                            ps0 = raw(sim)
+                            i0 = invariants(ps0, 1.0)
+                            stale = (sim.ri_trace._com_pos.x, sim.ri_trace._com_pos.y, sim.ri_trace._com_pos.z)
+                            dt_ = sim.dt
+                            kind, whseq, rej = tk_step(sim)
+                            ps1 = raw(sim)
+                            i1 = invariants(ps1, 1.0)
+                            fct = dict(kind=kind, event=ev, frame=frame, peri=PERI[pm])
+                            if kind in TK["kind"]:
+                                tklog.add(fct)
+                            tk_hist[kind] = tk_hist.get(kind, 0) + 1
+                            c.count(("trace-event-step", sysd["name"], frame, pm, k_, ev), nontrivial=kind != "plain")
+                            hist["trace-event-step"] = hist.get("trace-event-step", 0) + 1
+                            dP_ = norm([a - b for a, b in zip(i1["P"], i0["P"])]) / i0["Pscale"]
+                            Rs = math.fsum(abs(p_[0]) * norm(p_[1:4]) for p_ in ps1) + i0["Pscale"] * abs(dt_)
+                            dRv = [(a - b - pp * dt_) / i0["M"] for a, b, pp in zip(i1["R"], i0["R"], i0["P"])]
+                            dR_ = norm(dRv) * i0["M"] / Rs
+                            worst["trace-event-step:dP"] = max(worst.get("trace-event-step:dP", 0.0), dP_)
+                            worst["trace-event-step:dCOM"] = max(worst.get("trace-event-step:dCOM", 0.0), dR_)
+                            rep = dict(system=sysd, factors=fct, steps_before_event=k_, dt=dt_, com_pos_before_step=stale, state_before_step=ps0, dP=dP_, dCOM=dR_, com_jump=dRv)
+                            if abs(i1["M"] - i0["M"]) > 0:
+                                viol.append(("trace-event-step:M", "TRACE: total mass changed in the step after '%s'" % ev, rep))
+                            if dP_ > bPk:
+                                viol.append(("trace-event-step:P:" + kind, "TRACE: momentum changes by %.3g (relative) in a %s step right after '%s' (%s, peri_mode=%s)" % (dP_, kind, ev, frame, PERI[pm]), rep))
+                            if dR_ > bRk:
+                                viol.append(("trace-event-step:COM:" + kind, "TRACE: the centre of mass jumps by (%.3g, %.3g, %.3g) in ONE %s step taken right after '%s' (%s frame, peri_mode=%s, %d steps before the event; "
+                                             "ri_trace.com_pos held (%.3g, %.3g, %.3g) before the step)" % (dRv[0], dRv[1], dRv[2], kind, ev, frame, PERI[pm], k_, stale[0], stale[1], stale[2]), rep))
+                            if whseq and kind in TK["kind"]:
+                                cp_, cv_ = sim.ri_trace._com_pos, sim.ri_trace._com_vel
+                                lines2.append(" ".join(["tracecom", str(len(ps0)), str(len(ps0)), d2h(dt_), "1" if rej else "0", d2h(stale[0]), d2h(stale[1]), d2h(stale[2])] + part_tokens(ps0)))
+                                expect2.append([cp_.x, cp_.y, cp_.z, cv_.x, cv_.y, cv_.z]); meta2.append(("tracecom", len(ps0), kind, ev))
+                except Exception as ex:
+                    viol.append(("crash:trace-event-step", "TRACE event/step block raised %r (%s, %s, peri_mode=%s)" % (ex, sysd["name"], frame, PERI[pm]), dict(system=sysd, frame=frame)))
+    c.cov["trace_event_step_kinds"] = tk_hist
+    tkrep = tklog.report(); tkrep["factors"] = {k_: len(v_) for k_, v_ in TK.items()}
+    c.cov["pairs_trace_event_step"] = tkrep
+    if tkrep["covered"] < tkrep["total"]:
+        c.broken.append("coverage: %d of %d (step kind, event, frame, peri_mode) pairs of the TRACE event-before-step block were not evaluated, e.g. %s" % (tkrep["total"] - tkrep["covered"], tkrep["total"], tkrep["missing"][:3]))
+    if any(k_.startswith("unclassified") for k_ in tk_hist):
+        c.broken.append("TRACE step classification: unexpected number of interaction-step force calls: %s" % {k_: v_ for k_, v_ in tk_hist.items() if k_.startswith("unclassified")})
+    out2 = run_driver(exe, lines2) if lines2 else []
+    if len(out2) != len(lines2):
+        c.corr_break("driver returned %d lines for %d tracecom ops" % (len(out2), len(lines2)))
+    else:
+        for g, e, mt, l in zip(out2, expect2, meta2, lines2):
+            if g.split() == [d2h(v) for v in e]:
+                st["bitwise_equal"] += 1
+            else:
+                st["disagree"] += 1
+                c.corr_break("TRACE com_pos/com_vel after a %s step following '%s' differ from the model (part2Com)" % (mt[2], mt[3]),
+                             {"op": "tracecom", "N": mt[1], "op_line": l[:1500], "model": g[:400], "impl": " ".join(d2h(v) for v in e)})
+                break
+    c.cov["model_lines_compared"] = len(lines) + len(lines2)
+    c.cov["correspondence"] = st
 
     # ======================================================================= search: merging collisions conserve m, P, COM
     nm = 0
